@@ -272,6 +272,102 @@ def run_mono_mirror(zone):
     return run
 
 
+class UFunc:
+    """An uninterpreted spacing function (contract stub): one fresh value per argument."""
+
+    def __init__(self, ctx, name):
+        self.ctx, self.name, self.vals = ctx, name, {}
+
+    def at(self, x):
+        from vc.sym import lift
+
+        x = lift(x)
+        k = x.t.get_id()
+        if k not in self.vals:
+            self.vals[k] = (self.ctx.real("%s!%d" % (self.name, len(self.vals))), x)
+        return self.vals[k][0]
+
+    def __call__(self, i):
+        if isinstance(i, numpy.ndarray):
+            out = numpy.empty(i.shape, dtype=object)
+            for idx in numpy.ndindex(*i.shape):
+                out[idx] = self.at(i[idx])
+            return out
+        return self.at(i)
+
+
+def make_combine_run(ranges, orth, vecs):
+    """combineSfuncs: result is an affine combination (weights summing to one) of the fixed
+    lower / fixed upper / orthogonal spacing functions, hence end-point exact; beyond the ends
+    it is the fixed function of that end; it is handed to _checkMonotonic."""
+
+    def run(ctx):
+        from hypnotoad.core import equilibrium as E
+
+        r = object.__new__(E.EquilibriumRegion)
+        ny, L = ctx.real("ny_noguards"), ctx.real("L")
+        pre, nyt = ctx.real("N_norm_prefactor"), ctx.real("ny_total")
+        ctx.assume(And(ny >= 1, L > 0, pre > 0, nyt >= ny))
+        r.ny_noguards, r.ny_total, r.psi, r.name = ny, nyt, None, "r"
+        r.user_options = types.SimpleNamespace(N_norm_prefactor=pre, sfunc_checktol=1.0e-13)
+        r.nonorthogonal_options = types.SimpleNamespace(nonorthogonal_radial_range_power=1.0)
+        sp = {}
+        for side in ("lower", "upper"):
+            for suf in ("", "_inner", "_outer"):
+                k = "nonorthogonal_range_%s%s" % (side, suf)
+                if side in ranges:
+                    sp[k] = ctx.real(k)
+                    ctx.assume(sp[k] > 0)
+                else:
+                    sp[k] = None
+        r.getSpacings = lambda: dict(sp)
+        r.nxOutsideSeparatrix = lambda: 4
+        r.nxInsideSeparatrix = lambda: 4
+        sfl, sfu, sperp_l, sperp_u = (UFunc(ctx, n) for n in ("sfixed_lower", "sfixed_upper", "sperp_lower", "sperp_upper"))
+        sorth = UFunc(ctx, "sorth") if orth else None
+        made = []
+
+        def fixed(npoints, dist, **kw):
+            made.append(("poloidal", npoints, dist, kw))
+            return sfl if len([m for m in made if m[0] == "poloidal"]) == 1 and vecs[0] is None else sfu
+
+        def perp(npoints, contour, vec, lower, **kw):
+            made.append(("perp", npoints, vec, lower, kw))
+            return (sfl, sperp_l) if lower else (sfu, sperp_u)
+
+        r.getSfuncFixedSpacing, r.getSfuncFixedPerpSpacing = fixed, perp
+        checks = []
+        r._checkMonotonic = lambda lst, **kw: checks.append((lst, kw))
+        contour = types.SimpleNamespace(global_xind=1, totalDistance=lambda psi=None: L)
+        new = E.EquilibriumRegion.combineSfuncs(r, contour, sorth, vecs[0], vecs[1])
+        one = lambda x: numpy.array([x], dtype=object)
+        ilen = 2 * ny
+        # contracts of the callees: end-point exact
+        for fn_ in (sfl, sfu) + ((sorth,) if orth else ()):
+            ctx.assume(And(fn_.at(0.0 * L) == 0, fn_.at(ilen) == L))
+        v0, vN = new(one(0.0 * L))[0], new(one(ilen))[0]
+        ineg, ipos, imid = ctx.real("i_below"), ctx.real("i_above"), ctx.real("i_inside")
+        ctx.assume(And(ineg < 0, ipos > ilen, imid > 0, imid < ilen))
+        vneg, vpos, vmid = new(one(ineg))[0], new(one(ipos))[0], new(one(imid))[0]
+        with spec_mode():
+            ctx.oblige(TRUE(len(made) == 2), "one fixed-spacing function per end")
+            ctx.oblige(And(*[m[1] == 2 * ny + 1 for m in made]), "fixed-spacing functions are built for the 2*ny+1 points of the contour")
+            ctx.oblige(TRUE([m[0] for m in made] == ["poloidal" if v is None else "perp" for v in vecs]), "poloidal spacing at an end without a surface vector, perpendicular spacing otherwise (lower first)")
+            ctx.oblige(TRUE(len(checks) == 1 and checks[0][0][0][0] is new and same(checks[0][1]["total_distance"], L)), "the combined function is passed to _checkMonotonic over the contour length")
+            ctx.oblige(v0 == 0, "combined s(0) = 0")
+            ctx.oblige(vN == L, "combined s(2 ny) = L")
+            if "lower" in ranges:
+                ctx.oblige(vneg == sfl.at(ineg), "below index 0 the combined function is the fixed lower one")
+            if "upper" in ranges:
+                ctx.oblige(vpos == sfu.at(ipos), "beyond the last index the combined function is the fixed upper one")
+            # inside: an affine combination -- if all component functions agree the result is that value
+            comps = [sfl.at(imid)] * ("lower" in ranges) + [sfu.at(imid)] * ("upper" in ranges) + ([sorth.at(imid)] if orth else [])
+            ctx.oblige(Implies(And(*[c == comps[0] for c in comps[1:]]) if len(comps) > 1 else TRUE(True), vmid == comps[0]), "inside: weights sum to one (equal components give that value)")
+        return new
+
+    return run
+
+
 def sqrt_raise_ok(path):
     return isinstance(path.exc, ValueError)
 
@@ -445,7 +541,7 @@ def make_perp_spacing_run(start_wall, end_wall, explicit):
 def build(S):
     S.under_contract(FN_MONO, FN_SQRT, FN_LIN, FN_CHK, E_ + "combineSfuncs", E_ + "getSfuncFixedSpacing", E_ + "getSfuncFixedPerpSpacing")
     S.assume("N, N_norm treated as reals >= 1; float literals read as exact decimals (source recompiled through the literal-lifting transform)")
-    S.assume("concave branch of getMonotonicPoloidalDistanceFunc (brentq, logarithms), end-gradient coefficients and interior monotonicity of the sqrt functions, combineSfuncs weights: bounded numerical lattice only; strictness of the final point order is enforced by PsiContour.get_distance (C05)")
+    S.assume("concave branch of getMonotonicPoloidalDistanceFunc (brentq, logarithms), end-gradient coefficients and interior monotonicity of the sqrt functions, combineSfuncs with both ranges AND an orthogonal function (boolean-mask renormalisation of the weights): bounded numerical lattice only; strictness of the final point order is enforced by PsiContour.get_distance (C05)")
     check_monotonic_cases(S)
     with numpy_shimmed():
         S.contract("linear", FN_LIN, run_linear, shape="scalar")
@@ -460,6 +556,9 @@ def build(S):
         for case in SQRT_CASES:
             S.contract("sqrt-end-gradients[%s]" % case, FN_SQRT, run_sqrt_gradients(case), expected_exceptions=(ValueError,), raises_ok=sqrt_raise_ok, shape="scalar", feas_timeout_ms=4000, assume_safety=AS)
         add_mirror(S)
+        V = object()
+        for ranges, orth, vecs in ((("lower", "upper"), False, (None, None)), (("lower", "upper"), False, (V, V)), (("lower", "upper"), False, (None, V)), (("lower",), True, (V, None)), (("upper",), True, (None, V)), ((), True, (None, None))):
+            S.contract("combineSfuncs[ranges=%s,%s,vec=%s]" % ("+".join(ranges) or "none", "orthogonal given" if orth else "no orthogonal function", "/".join("-" if v is None else "v" for v in vecs)), E_ + "combineSfuncs", make_combine_run(ranges, orth, vecs), expected_exceptions=(ValueError,), shape="symbolic ny, L, ranges; component spacing functions uninterpreted", feas_timeout_ms=4000)
         for method in ("sqrt", "monotonic", "linear"):
             for explicit in (False, True):
                 S.contract("getSfuncFixedSpacing[%s%s]" % (method, ",explicit spacings" if explicit else ""), E_ + "getSfuncFixedSpacing", make_fixed_spacing_run(method, explicit), shape="symbolic npoints, distance, N_norm_prefactor, ny_total; helper functions are recorder stubs")
